@@ -38,6 +38,7 @@ type Thread struct {
 	done     bool
 	sleeping bool
 	own      uint64 // progress-epoch increments made by this thread
+	poller   bool   // has called Sleep at least once
 	iterMark uint64 // steps made by OTHER threads when the current polling iteration began
 	Daemon   bool   // a thread that is allowed to stay blocked at the end (consumer loops)
 	nops     int
@@ -251,7 +252,9 @@ func (s *Sched) threadMain(t *Thread, body func()) {
 		if s.ended {
 			return
 		}
-		s.epoch++
+		if !t.poller {
+			s.epoch++
+		}
 		s.schedule(t, true)
 	}()
 	body()
@@ -386,8 +389,10 @@ func (s *Sched) point(kind string, loc uintptr, cond func() bool) {
 		t.iterMark = s.epoch - t.own
 	}
 	t.nops++
-	s.epoch++
-	t.own++
+	if !t.poller {
+		s.epoch++
+		t.own++
+	}
 	if s.cfg.KeyHook != nil {
 		s.setObs(t, mix(t.obs, uint64(t.nops)))
 	}
@@ -586,6 +591,10 @@ func Sleep(d time.Duration) {
 		return
 	}
 	t := s.cur
+	// A thread that polls is a poller from now on: its steps no longer count as progress for other polling
+	// loops (two pollers would otherwise wake each other forever). Sleepers are woken by the steps of
+	// ordinary threads (producers, closers) only.
+	t.poller = true
 	t.sleeping = true
 	s.point("sleep", 0, nil)
 }
@@ -802,8 +811,10 @@ func MutexUnlock(m *MutexState) bool {
 		panic("mcrt: unlock of unlocked mutex")
 	}
 	m.locked = false
-	s.epoch++
-	s.cur.own++
+	if !s.cur.poller {
+		s.epoch++
+		s.cur.own++
+	}
 	s.cur.nops++
 	s.afterOp(uintptr(unsafe.Pointer(m)), true, 8)
 	if PointAfterUnlock {
@@ -838,8 +849,10 @@ func MutexRUnlock(m *MutexState) bool {
 		return true
 	}
 	m.readers--
-	s.epoch++
-	s.cur.own++
+	if !s.cur.poller {
+		s.epoch++
+		s.cur.own++
+	}
 	s.cur.nops++
 	s.afterOp(uintptr(unsafe.Pointer(m)), true, 10)
 	return true
